@@ -431,11 +431,41 @@ func (p *Proof) computeAllowed(fr *Frame, c *Contract) {
 	for _, m := range c.Modifies {
 		if id, ok := m.Expr.(*ast.Ident); ok && (id.Name == "heap" || id.Name == "everything") {
 			p.allowAll = true
-			return
+		}
+	}
+	for _, m := range c.Modifies {
+		if id, ok := m.Expr.(*ast.Ident); ok && (id.Name == "heap" || id.Name == "everything") {
+			continue
+		}
+		if p.allowAll {
+			// only the ghost items matter once the whole heap may change
+			if id, ok := m.Expr.(*ast.Ident); !ok || !strings.HasPrefix(id.Name, "ghost__") {
+				continue
+			}
 		}
 		env.havocLvalue(m, allowed)
 	}
 	p.allowedHeap = allowed
+}
+
+// ghostFrameCheck: a ghost that the modifies clause does not name has its entry value at exit
+// (callers keep such ghosts unchanged across a call of this function).
+func (p *Proof) ghostFrameCheck(fr *Frame, out *State) {
+	if p.allowedHeap == nil {
+		return
+	}
+	var gs []string
+	for g := range out.Ghost {
+		gs = append(gs, g)
+	}
+	sort.Strings(gs)
+	for _, g := range gs {
+		init, ok := fr.entrySt.Ghost[g]
+		if !ok || p.allowedHeap.Ghost[g] != init || out.Ghost[g] == init {
+			continue
+		}
+		p.oblige(fmt.Sprintf("%s/frame#ghost_%s", p.fname, g), "frame", fr.fn.Pos(), out.Guard, Eq(out.Ghost[g], init), "ghost $"+g+" is not in the modifies clause and keeps its entry value")
+	}
 }
 
 func (p *Proof) frameGoal(k string, fin *Term) *Term {
@@ -503,6 +533,7 @@ func (p *Proof) frameClauses(st *State, eff *effects) []frameClause {
 
 // frameCheck: heap cells not covered by the modifies clause are unchanged for pre-existing objects.
 func (p *Proof) frameCheck(fr *Frame, c *Contract, out *State) {
+	p.ghostFrameCheck(fr, out)
 	if p.allowAll || p.allowedHeap == nil {
 		return
 	}
